@@ -275,6 +275,7 @@ def parseRoute (s : String) : Option Route :=
   else if s == "err" || s == "herr" then some .fail
   else if s == "px" || s == "rl" then some .proxyOk
   else if s == "pxe" || s == "rle" then some .proxyErr
+  else if s == "fcg" then some .fcgiErr
   else none
 
 def handle : List String → String
@@ -311,16 +312,14 @@ namespace CaddyModel.C20
     1 query filter, `/a?token=T#%zz` (url.Parse fails → passed through)      query_filter_full_fails
     2 ip_mask, `fe80::1%eth0` (net.ParseIP rejects zones → passed through)   ipmask_full_fails
     3 hash on an integer field (passed through)                             hash_full_fails
-    4 query `hash` action emits hash(action.Value)                          Props.query_hash_action_is_constant
-    5 the first one end to end: `GET /h/x?token=T#%zz` through a provisioned server whose access log has a
+    4 the first one end to end: `GET /h/x?token=T#%zz` through a provisioned server whose access log has a
       filter encoder with `request>uri` → query delete token
-    6 the second one end to end: client `[fe80::1:2%eth0]:9`, `request>remote_ip` → ip_mask
-    7 cookie filter on a string field (passed through)                      hash_full_fails -/
+    5 the second one end to end: client `[fe80::1:2%eth0]:9`, `request>remote_ip` → ip_mask
+    6 cookie filter on a string field (passed through)                      hash_full_fails -/
 def witnessLines : List String := [
   "C20 flt query:d,746f6b656e,- 757269 s 2f613f746f6b656e3d303132333435363738396162636465663031323334353637383961626364656623257a7a U,2f613f746f6b656e3d303132333435363738396162636465663031323334353637383961626364656623257a7a",
   "C20 flt ipmask:16:32 72656d6f74655f6970 s 666538303a3a312565746830 T,666538303a3a312565746830,666538303a3a312565746830;S,666538303a3a312565746830;P,666538303a3a312565746830",
   "C20 flt hash 737461747573 o 0 .",
-  "C20 flt query:h,6871,- 757269 s 2f613f68713d3031323334353637383961626364656630313233343536373839616263646566 U,2f613f68713d3031323334353637383961626364656630313233343536373839616263646566,2f61,-,0,6871=3031323334353637383961626364656630313233343536373839616263646566",
   "C20 site 1 0 d 0 ok 200 3139322e302e322e313a31323334 3f746f6b656e3d303132333435363738396162636465663031323334353637383961626364656623257a7a . . . . . . . 536572766572:4361646479",
   "C20 site 1 0 d 0 ok 200 5b666538303a3a313a3225657468305d3a39 - . . . . . . . 536572766572:4361646479",
   "C20 flt cookie:d,736964,- 636f6f6b6965 s 7369643d3031323334353637383961626364656630313233343536373839616263646566 ."]
